@@ -21,7 +21,6 @@ import (
 	"math/rand"
 	"os"
 	"path/filepath"
-	"runtime/debug"
 	"strings"
 	"time"
 
@@ -87,7 +86,7 @@ type verdict struct {
 	edges bool // every transaction after all its in-set parents
 }
 
-func judge(c *Case, byHash map[chainhash.Hash]int, out []*wire.MsgTx) verdict {
+func judge(c *Case, byPtr map[*wire.MsgTx]int, byHash map[chainhash.Hash]int, out []*wire.MsgTx) verdict {
 	v := verdict{order: make([]int, 0, len(out))}
 	pos := make([]int, c.N+1)
 	for i := range pos {
@@ -95,9 +94,15 @@ func judge(c *Case, byHash map[chainhash.Hash]int, out []*wire.MsgTx) verdict {
 	}
 	v.once = len(out) == c.N
 	for i, tx := range out {
+		// DependencySort hands back the pointers it was given; lists read from
+		// a store hold fresh values, identified by their hash
 		t := 0
 		if tx != nil {
-			t = byHash[tx.TxHash()]
+			if k, ok := byPtr[tx]; ok {
+				t = k
+			} else {
+				t = byHash[tx.TxHash()]
+			}
 		}
 		v.order = append(v.order, t)
 		if t == 0 || pos[t] >= 0 {
@@ -130,8 +135,6 @@ func main() {
 	storeOrders := flag.Int("store-orders", 2, "insertion orders into a Store per set")
 	storeReps := flag.Int("store-reps", 10, "UnminedTxs calls per insertion order")
 	flag.Parse()
-	// millions of short-lived maps and slices: collect less often
-	debug.SetGCPercent(800)
 
 	root, err := common.ScratchRoot("kahn")
 	if err != nil {
@@ -174,8 +177,10 @@ func main() {
 		}
 		txs, hashes := buildTxs(&c)
 		byHash := map[chainhash.Hash]int{}
+		byPtr := map[*wire.MsgTx]int{}
 		for t := 1; t <= c.N; t++ {
 			byHash[hashes[t]] = t
+			byPtr[txs[t]] = t
 		}
 		if len(byHash) != c.N {
 			rep.AddError("case %d: harness built colliding transactions", idx)
@@ -189,7 +194,7 @@ func main() {
 				Trace: idx, Step: ncalls, What: what, Observed: obs, Expected: exp, Behav: json.RawMessage(line)})
 		}
 		check := func(api string, got []*wire.MsgTx) {
-			v := judge(&c, byHash, got)
+			v := judge(&c, byPtr, byHash, got)
 			nchecks++
 			inValid := valid[v.key]
 			if inValid != (v.once && v.edges) {
